@@ -1,0 +1,26 @@
+//go:build verif
+
+package eval
+
+// Verification hooks for the function-result cache (build tag `verif` only).
+
+// VerifCacheOff, when true, turns memoization off: every Cache.Get misses and Cache.Set stores nothing,
+// so the same binary can run a program with and without the cache.
+var VerifCacheOff bool
+
+// VerifCacheEntry is one cache entry: the key (function text and argument slots) and the remembered
+// result and output.
+type VerifCacheEntry struct {
+	Key   CacheKey
+	Value CacheValue
+}
+
+// VerifCacheEntries returns a copy of the current content of the state's function-result cache
+// (in unspecified order).
+func VerifCacheEntries(s *State) []VerifCacheEntry {
+	res := make([]VerifCacheEntry, 0, len(s.cache))
+	for k, v := range s.cache {
+		res = append(res, VerifCacheEntry{Key: k, Value: v})
+	}
+	return res
+}
